@@ -60,6 +60,9 @@ def mk_value(st, T_, t):
     if isinstance(T_, TQueue):
         return VQueue(t, T_.elem)
     if isinstance(T_, TFunc):
+        # callables of the program have positive ids; the engine's names for opaque repository functions are negative
+        if not z3.is_int_value(t):
+            st.pc_fact(t > 0)
         return VFunc(t, T_)
     if isinstance(T_, TEnum):
         return VEnum(T_.cls, t)
@@ -380,7 +383,7 @@ def seq_of(st, L):
 
     def get(i, inner=inner, elem=elem):
         return mk_value(st, elem, z3.Select(inner, i))
-    return VSeq(n, get, elem, kind)
+    return VSeq(n, get, elem, kind, inner if isinstance(elem, TInt) else None)
 
 
 # ---------------------------------------------------------------------------
